@@ -260,5 +260,23 @@ theorem ni_stepOp {b : Bag} (h : NI b) (hr : Rect b) (op : Op) (hne : ¬ NameEdi
   | revcompSeqs names =>
     have s := sameShape_reverseComplementSequences names b h.inv
     exact h.keys s.keys s.index s.next
+  | diffFirst =>
+    simp only [Model.stepOp]
+    split
+    · exact h
+    · split
+      · exact h
+      · rename_i r hrr
+        have s := sameShape_diffWithFirst hrr
+        exact h.keys s.keys s.index s.next
+  | replaceMatch =>
+    simp only [Model.stepOp]
+    split
+    · exact h
+    · split
+      · exact h
+      · rename_i r hrr
+        have s := sameShape_replaceMatchChars hrr
+        exact h.keys s.keys s.index s.next
 
 end Gv.Proofs.BagAbs
